@@ -8,6 +8,7 @@
 From stdpp Require Import gmap.
 From Coq Require Import ZArith NArith List.
 Require Import Regen.Ledger.Types Regen.Ledger.Msgs Regen.Ledger.Step Regen.Ledger.Determinism.
+Require Import Regen.Ledger.SpellingModel Regen.Ledger.Spelling.
 Import ListNotations.
 
 Theorem C10_failed_no_trace : forall e s m s' o,
@@ -23,3 +24,9 @@ Theorem C10_restart_invariant : forall authority s pieces,
   run_pieces authority s pieces = run authority s (concat pieces).
 Proof. exact restart_any_boundaries. Qed.
 Print Assumptions C10_restart_invariant.
+
+(* a failed or rejected message leaves no trace, whatever the spelling of its addresses (Ledger/Spelling.v) *)
+Theorem C10_failed_message_no_trace_in_any_spelling : forall sp e s m,
+  (forall r evs, (deliver_sp sp e s m).2 <> OOk r evs) -> (deliver_sp sp e s m).1 = s.
+Proof. exact deliver_sp_failed_no_effect. Qed.
+Print Assumptions C10_failed_message_no_trace_in_any_spelling.
